@@ -397,6 +397,14 @@ func (rf *ReplicaFollower) preSync(leaderSp StartPoint) (sp StartPoint, err erro
 	rf.logger.Infof("gap : leader(%v), follower(%v)", leaderSp, sp)
 
 	if sp.IsInitial() || !sp.IsValid() || sp.RunId != leaderSp.RunId {
+		// what is cached under another replication id cannot be joined with the leader's stream :
+		// SetRunId would only re-label it (rename the directory / keep the segments) as the leader's
+		if old := rf.channel.RunId(); old != "" && old != leaderSp.RunId {
+			if err = rf.channel.DelRunId(old); err != nil {
+				err = errors.Join(ErrRestart, err)
+				return
+			}
+		}
 		if err = rf.channel.SetRunId(leaderSp.RunId); err != nil {
 			err = errors.Join(ErrRestart, err)
 			return
